@@ -73,7 +73,7 @@ type op struct {
 	Version string
 	SubRev  string
 	Avail   bool
-	Scen    []uint // ascending, distinct (the way callers write scenario lists)
+	Scen    []uint // mostly ascending and distinct (the way callers write scenario lists), see genValues
 	NilScen bool   // pass nil instead of an empty slice when Scen is empty
 }
 
@@ -455,7 +455,19 @@ func genValues(t *rapid.T, o *op) {
 	o.SubRev = rapid.SampledFrom(subRevisions).Draw(t, "subRevision")
 	o.Avail = rapid.Bool().Draw(t, "available")
 	scen := rapid.SliceOfNDistinct(rapid.UintRange(1, 6), 0, 4, rapid.ID[uint]).Draw(t, "scenarios")
-	sort.Slice(scen, func(i, j int) bool { return scen[i] < scen[j] })
+	// mostly ascending and distinct (the way callers write scenario lists) - but "the scenarios last given" are
+	// the list as given: now and then it is left in the drawn order, or names a scenario twice
+	switch rapid.IntRange(0, 5).Draw(t, "scenarioListForm") {
+	case 0, 1:
+		world.Label("scenarios/as-drawn")
+	case 2:
+		if len(scen) > 0 {
+			scen = append(scen, scen[rapid.IntRange(0, len(scen)-1).Draw(t, "repeated")])
+			world.Label("scenarios/one-named-twice")
+		}
+	default:
+		sort.Slice(scen, func(i, j int) bool { return scen[i] < scen[j] })
+	}
 	o.Scen = scen
 	if len(scen) == 0 {
 		o.NilScen = rapid.Bool().Draw(t, "nilScenarios")
